@@ -1,12 +1,12 @@
 """C24 -- function hoisting only reorders top-level chunks (format/formatutil/format_gop.go
 RearrangeFuncs / splitStmts / firstNonDecl / isFuncDecl / codeOf, SourceEx).
 
-Spec specs/syntax/Rearrange.tla: a script is a sequence of chunks (12 kinds x 5 rendering variants)
+Spec specs/syntax/Rearrange.tla: a script is a sequence of chunks (13 kinds x 5 rendering variants)
 rendered as attributed lines/atoms.  For every script in the bound TLC computes WANT (the permutation
 the statement prescribes, over chunks) and runs CODE (today's algorithm as a state machine over the
 scanner's word stream: one action per word, per statement emitted), checks that WANT is the statement,
-that CODE keeps every atom exactly once, and that CODE = WANT wherever none of the four known
-deviations is triggered; it exports chunks, bodies, WANT and CODE's byte-exact prediction.  The harness
+that CODE keeps every atom exactly once, and that CODE = WANT wherever no deviation is triggered (one
+dialect switch per repair in the cfgs: FuncExprIsDecl, ParenIsNesting, ImportIsDecl, TrailingCommentStays); it exports chunks, bodies, WANT and CODE's byte-exact prediction.  The harness
 (harness/cmd/misch rearrange) renders the script, calls RearrangeFuncs / Source / SourceEx and judges
 P1 bytes kept, P2 every chunk body intact once, P3 bodies in the prescribed order, P4 the SourceEx clause;
 the byte-exact prediction is compared for drift.
@@ -31,7 +31,7 @@ def run(ctx):
     res = ctx.run_harness(h, ["rearrange"], cases, timeout_s=1800)
     ctx.tally(res, cases_path=cases)
     ctx.exhaustive = True
-    ctx.rule = ("every sequence of up to MaxChunks top-level chunks over the cfg's kinds (import, var, type, "
+    ctx.rule = ("every sequence of up to MaxChunks top-level chunks over the cfg's kinds (package, import, var, type, "
                 "parenthesised var group, func, method, operator method, simple statement, block statement with "
                 "nested braces, func literal called in place without / with result type, func-typed conversion) x "
                 "the cfg's rendering variants (plain, comment line before, trailing comment, comment inside, blank "
@@ -40,6 +40,6 @@ def run(ctx):
         "sources end with a newline (the last chunk of a source without one cannot be moved without adding a byte)",
         "a chunk's body is its text from the first code token to the end of its last line (trailing comment and "
         "newline included); where comment lines / blank lines between chunks go is not pinned (drift only)",
-        "`import` is a declaration in the sense of the statement",
+        "`import` is a declaration in the sense of the statement; the package clause stays in the untouched prefix",
         "chunks are made unique by numbering their identifiers",
     ]
